@@ -1,0 +1,9 @@
+//go:build !verif
+// +build !verif
+
+package txpool
+
+import "github.com/LemoFoundationLtd/lemochain-core/chain/types"
+
+func verifTrace(pool *TxPool, op string, txs types.Transactions, preLen int, time uint32, size int, result *[]*types.Transaction) {
+}
